@@ -121,6 +121,94 @@ def run(ctx):
     for i in range(n_gen):
         specs.append(tl.gen_mol_spec(rng, en, max_atoms, specials=(i % 5 == 0)))
 
+    # ------------------------------------------------------------------ process history: the read of a text is a
+    # function of the text alone. BEFORE anything is read in this process, every token of the table (and foreign
+    # ones) is applied by "user code" to atoms pre-set to other (element, atom type, geometry) states; then a set of
+    # texts is read in two orders and compared with the same texts read in a FRESH process (and, like every read of
+    # this run, with the stateless model reader).
+    from harness.gen import Mol2Types as G0
+    obs0 = G0.observe()
+    vocab0 = sorted(set(obs0["emit"].values()))
+    states = [(e, t, g) for e in (en.ei[en.Element.C], en.ei[en.Element.N], en.ei[en.Element.S], en.ei[en.Element.Unknown], en.ei[en.Element.Fe])
+              for t in range(len(en.T)) for g in range(len(en.G))]
+    per_token = 3 if quick else 40
+    extra_toks = ["C.x", "c.3", "Du", "Du.3", "N.am", "S.O", "O.co2", "C.cat", "Xx", "C.", "Unknown"]
+    history_calls = []
+    for tok in vocab0 + extra_toks:
+        for k in range(per_token):
+            e0, t0, g0 = rng.choice(states) if k else (rng.choice(states)[0], en.ti[en.AtomType.Aromatic], en.gi[en.AtomGeom.R3_Planar])
+            a = Atom(en.E[e0], atype=en.T[t0], geom=en.G[g0])
+            history_calls.append([tok, e0, t0, g0])
+            try:
+                a.set_mol2_type(tok)
+                impl = f"ok {en.ei[en.Element(a.element)]},{en.ti[en.AtomType(a.atype)]},{en.gi[en.AtomGeom(a.geom)]}"
+            except Exception:  # noqa: BLE001
+                impl = "err"
+            ctx.case(f"pretyped:{e0},{t0},{g0}:{tok}", True)
+            ctx.count("set_mol2_type_on_pretyped_atom")
+            ask(f"settypefrom {e0},{t0},{g0} {tl.hx(tok)}",
+                lambda resp, impl=impl, tok=tok, s0=(e0, t0, g0): (resp == impl or (impl == "err" and resp.startswith("err"))) or ctx.disagree(
+                    "Atom(e, atype, geom).set_mol2_type(token) differs from the model", [s0, tok], impl, resp))
+    hist_specs = [c["spec"] for c in tl.load_corpus("C07") if "spec" in c][:3]
+    hrng = rng.fork("history")
+    hist_specs += [tl.gen_mol_spec(hrng, en, 8, specials=False, name="hist%d" % i) for i in range(12 if quick else 60)]
+    hist_texts = []
+    for hs in hist_specs:
+        try:
+            hist_texts.append(tl.build_molecule(en, hs, ml.Molecule).dumps_mol2())
+        except Exception:  # noqa: BLE001
+            pass
+    # every token of the table as a text of its own (one atom per token, 40 tokens per text)
+    for i in range(0, len(vocab0), 40):
+        chunk = vocab0[i: i + 40]
+        hist_texts.append("@<TRIPOS>MOLECULE\ntokens\n%d 0\nSMALL\nNO_CHARGES\n\n@<TRIPOS>ATOM\n" % len(chunk) +
+                          "".join(f"{j + 1} X{j} 0.0 0.0 {j}.0 {t}\n" for j, t in enumerate(chunk)) + "@<TRIPOS>BOND\n")
+    for fp in tl.bundled_files(common.REPO, ".mol2"):
+        if fp.stat().st_size < 6000 and fp.read_text().isascii():
+            hist_texts.append(fp.read_text())
+
+    def read_here(t):
+        st, r = tl.limited(lambda: ml.Molecule.loads_all_mol2(t))
+        return [tl.canon_mol(en, x) for x in r] if st == "ok" else "err"
+
+    order_a = [read_here(t) for t in hist_texts]
+    perm = hrng.shuffle(list(range(len(hist_texts))))
+
+    def child_read(tag, job):
+        fin, fout = ctx.scratch / f"{tag}_in.json", ctx.scratch / f"{tag}_out.json"
+        fin.write_text(json.dumps(job))
+        child = common.run_child([common.repo_python(), str(Path(__file__).with_name("fresh_read.py")), str(common.VERIF),
+                                  str(common.REPO), str(fin), str(fout)], timeout=300)
+        if child is None or child.returncode != 0 or not fout.exists():
+            ctx.disagree("the separate-process reader could not be run", tag, (child.stderr[-400:] if child else "timeout"), "ok")
+            return None
+        return json.loads(fout.read_text())["results"]
+
+    # three separate processes: nothing before the reads / the pre-typed calls first / another reading order
+    fresh = child_read("fresh", {"texts": hist_texts})
+    after_calls = child_read("after_calls", {"texts": hist_texts, "history": history_calls})
+    reordered = child_read("reordered", {"texts": hist_texts, "order": perm})
+    if fresh is not None:
+        for i, t in enumerate(hist_texts):
+            ctx.case("history:" + t, True)
+            ctx.count("texts_read_after_history_and_in_a_fresh_process")
+            for what, res in (("in a process where user code had applied every type token to pre-typed atoms before", after_calls),
+                              ("in another reading order", reordered), ("in the check's own process", order_a)):
+                if res is None:
+                    continue
+                got = res[i]
+                if not tl.mols_equal(got, fresh[i]):
+                    ctx.violation("C07:read-depends-on-history",
+                                  f"the same mol2 text read {what} and read first thing in a fresh process gives different molecules "
+                                  f"(atom (type, geometry) indices {[(a['t'], a['g']) for a in got[0]['atoms'][:6]] if got != 'err' and got else got} vs "
+                                  f"{[(a['t'], a['g']) for a in fresh[i][0]['atoms'][:6]] if fresh[i] != 'err' and fresh[i] else fresh[i]})",
+                                  {"kind": "history", "text": t,
+                                   "history": "Atom(e, atype, geom).set_mol2_type(tok) for every token of the table on pre-typed atoms, then reads"})
+                    break
+            ask(f"read molecule ~ 1/1 {tl.hx(t)}",
+                lambda resp, got=order_a[i], t=t: tl.mols_equal(got, tl.parse_read_response(resp)) or ctx.disagree(
+                    "a text read after the history phase differs from the model reader", t, tl.short_mols(got), tl.short_mols(tl.parse_read_response(resp))))
+
     def check_written(obj, cls, kind_word, what, replay, with_charges):
         """obj.dumps_mol2() against the model writer fed with the canonical form of `obj` itself, and the round trip
         oracle: the written bond table is the object's bond list (indices relative to the object written)"""
